@@ -45,6 +45,7 @@ func runC11(c *Ctx) {
 	c02RecordDescribes(c, "C11.20")
 	ruleSeparatorIsFirstKey(c, "C11.21")
 	rulePagesOnlyGrow(c, "C11.22")
+	ruleRootCarriedThroughLoop(c, "C11.23")
 	// advisory: direct indexing
 	for _, name := range []string{"storage.(*btreeNode).updateCell", "storage.(*btreeNode).split", "storage.WALBatch.replay"} {
 		f := c.W.F(name)
